@@ -18,6 +18,11 @@ run(ctx)
                   Float instance of the proven `sepHav`.
   3. polygons: the same with `add_poly` / `query_polygon`; vertices on a circle (so the circumscribed
      circle is known), 3–8 vertices, both orientations; Spec `pspec`.
+  2c. history / argument forms: get_area is asked in BOTH units on every single-circle region, in alternating order
+      (sr,deg | deg,sr | repr,sr,deg | deg,sr,deg,sr) across regions of different depths in one process, the area-between-caps
+      clause judged in each unit; add_circles with list / ndarray (caller-owned, checked unmodified) / tuple / mixed arguments,
+      one call per circle on the same long-lived region with a query in between, and REPEATED bit-identical centres with
+      different radii in every order.
   3b. adversarial pixel geometry: per depth the most elongated pixels are found with hp.boundaries (corner-to-centre
      distance / nside2resol, up to 1.0446); sub-pixel discs are centred in the outer 0.05-4.5 % of their long diagonal, and
      larger discs are placed so that only that tip is inside; also around base-pixel corners and the |z| = 2/3 transition.
@@ -272,19 +277,47 @@ def args_close(a, b, tol=1e-13):
         and np.size(a) == np.size(b)
 
 
+VECTOR_FORMS = ('vector', 'ndarray', 'tuple', 'sequential', 'mixed')
+
+
 def build_circle_region(case):
-    """real code: fresh Region, add_circles; returns (region, spy calls)"""
+    """real code: fresh Region, add_circles in the argument form of the case; returns (region, spy calls).
+    forms: scalar | vector (lists) | ndarray (caller-owned float64 arrays, checked bit-identical afterwards) |
+           tuple | mixed (list ra, ndarray dec, tuple radius) | sequential (one add_circles call per circle on the
+           SAME region, with a sky_within query in between: the region is a long-lived object)"""
     from AegeanTools.regions import Region
     reg = Region(maxdepth=case['maxdepth'])
     cs = case['circles']
+    ras, decs, rs = [c[0] for c in cs], [c[1] for c in cs], [c[2] for c in cs]
+    form = case['form']
     with Spied() as spy:
-        if case['form'] == 'scalar':
+        if form == 'scalar':
             ra, dec, r = cs[0]
             reg.add_circles(ra, dec, r, depth=case['depth'])
+        elif form == 'sequential':
+            for i, (ra, dec, r) in enumerate(cs):
+                reg.add_circles(ra, dec, r, depth=case['depth'])
+                if i + 1 < len(cs):
+                    reg.sky_within(ra, dec)          # fills the demoted cache between two additions
+        elif form == 'ndarray':
+            a, d, r = np.array(ras), np.array(decs), np.array(rs)
+            keep = (a.copy(), d.copy(), r.copy())
+            reg.add_circles(a, d, r, depth=case['depth'])
+            for x, y, nm in zip((a, d, r), keep, ('ra_cen', 'dec_cen', 'radius')):
+                if x.tobytes() != y.tobytes():
+                    raise ArgumentMutated(f'add_circles modified the caller-owned array {nm}')
+        elif form == 'tuple':
+            reg.add_circles(tuple(ras), tuple(decs), tuple(rs), depth=case['depth'])
+        elif form == 'mixed':
+            reg.add_circles(list(ras), np.array(decs), tuple(rs), depth=case['depth'])
         else:
-            reg.add_circles([c[0] for c in cs], [c[1] for c in cs], [c[2] for c in cs], depth=case['depth'])
-        calls = list(spy.calls)
+            reg.add_circles(ras, decs, rs, depth=case['depth'])
+        calls = [c for c in spy.calls if c[0] != 'ang2pix']
     return reg, calls
+
+
+class ArgumentMutated(Exception):
+    pass
 
 
 def build_poly_region(case):
@@ -452,10 +485,19 @@ def run_circle_case(ctx, case, pts, spec_only=False):
         stage = 'add_circles'
         reg, calls = build_circle_region(case)
         stage = 'get_area'
-        area = float(reg.get_area(degrees=False)) if single else None
-        area_deg = float(reg.get_area(degrees=True)) if single else None
+        areas = []          # (unit, value) in the order the case asks for; 'repr' calls repr(region) (deg^2 inside)
+        if single:
+            for u in case.get('area_order', ['sr', 'deg']):
+                if u == 'repr':
+                    repr(reg)
+                else:
+                    areas.append((u, float(reg.get_area(degrees=(u == 'deg')))))
         stage = 'sky_within'
         queries = query_all(reg, pts, spec_only, BAD_POINTS, BAD_POINTS[:2], 6)
+    except ArgumentMutated as e:
+        ctx.case(case_pub(case), ('mutated', case['id']))
+        ctx.fail('spec', dict(case, observe='add_circles'), str(e), dict(sig_base, what='argument-mutated'))
+        return
     except Exception as e:
         ctx.case(case_pub(case), ('raise', case['id']))
         ctx.fail('spec', dict(case, observe=stage), f'{stage} raised {type(e).__name__}: {e} on a valid circle / position list',
@@ -489,7 +531,8 @@ def run_circle_case(ctx, case, pts, spec_only=False):
                          dict(sig_base, what='handoff-query_disc'))
                 break
     # ---- round 2: Spec ----
-    req = [f"aspec {f2h(cs[0][2])} {d} {f2h(area)}"] if single else []
+    DEG2 = (180 / math.pi) ** 2
+    req = [f"aspec {f2h(cs[0][2])} {d} {f2h(v if u == 'sr' else v / DEG2)}" for u, v in areas] if single else []
     plans = []
     for (degin, form, allp, got, qcalls), lw in zip(queries, lws):
         if not spec_only:
@@ -510,19 +553,24 @@ def run_circle_case(ctx, case, pts, spec_only=False):
             req.append(f"sep {hexes(best[2][0], best[2][1], p[0], p[1])}")
         plans.append((degin, form, allp, got, model, bests))
     ans = iter((yield req))
-    # ---- area (single circle only: the Spec speaks of one circle) ----
+    # ---- area (single circle only: the Spec speaks of one circle); judged in EACH unit, in the order asked ----
     if single:
         pa = h2f(la0.split()[1])
-        ctx.case(dict(case_pub(case), kind='circle-area'), ('area', case['id']))
-        ctx.count('area-cases')
-        if not spec_only and not common.close(area, len(dsets[0]) * pa, rel=1e-9):
-            ctx.fail('corr', case, f'get_area(sr)={area!r}, model N*pixArea={len(dsets[0]) * pa!r} (N={len(dsets[0])})', dict(sig_base, what='area-model'))
-        if not spec_only and not common.close(area_deg, area * (180 / math.pi) ** 2, rel=1e-9):
-            ctx.fail('corr', case, f'get_area(deg2)={area_deg!r} vs sr*(180/pi)^2={area * (180 / math.pi) ** 2!r}', dict(sig_base, what='area-units'))
-        if next(ans) != 'ok':
-            ctx.fail('spec', dict(case, observe='get_area'),
-                     f"area {area!r} sr not between cap(r)={cap_area(cs[0][2])!r} and cap(r+3pix)={cap_area(cs[0][2] + 3 * pix)!r}",
-                     dict(sig_base, what='area-between-caps'))
+        ctx.count('area order ' + ','.join(case.get('area_order', ['sr', 'deg'])))
+        for u, v in areas:
+            ctx.case(dict(case_pub(case), kind='circle-area', unit=u), ('area', case['id'], u))
+            ctx.count('area-cases ' + u)
+            vsr = v if u == 'sr' else v / DEG2
+            verdict = next(ans)
+            if verdict != 'ok':
+                k = 1 if u == 'sr' else DEG2
+                ctx.fail('spec', dict(case, observe='get_area', unit=u, area=v),
+                         f"get_area(degrees={u == 'deg'}) = {v!r} {'sr' if u == 'sr' else 'deg^2'} not between cap(r)={cap_area(cs[0][2]) * k!r} and "
+                         f"cap(r+3pix)={cap_area(cs[0][2] + 3 * pix) * k!r} (calls on this region, in order: {case.get('area_order', ['sr', 'deg'])})",
+                         dict(sig_base, what='area-between-caps', unit=u))
+            elif not spec_only and not common.close(vsr, len(dsets[0]) * pa, rel=1e-9):
+                ctx.fail('corr', case, f'get_area({u})={v!r}, model N*pixArea={len(dsets[0]) * pa * (1 if u == "sr" else DEG2)!r} (N={len(dsets[0])})',
+                         dict(sig_base, what='area-model', unit=u))
     # ---- membership ----
     for degin, form, allp, got, model, bests in plans:
         for p, g, mo, b in zip(allp, got, model, bests):
@@ -958,18 +1006,46 @@ def poly_dist(q, vs):
 # case construction / entry points
 # ---------------------------------------------------------------------------------------------
 
+AREA_ORDERS = [['sr', 'deg'], ['deg', 'sr'], ['repr', 'sr', 'deg'], ['deg', 'sr', 'deg', 'sr']]
+
+
 def make_circle_case(ctx, k, budget):
     rng = ctx.rng
     m, darg, deff, r, cls = gen_shape_params(ctx, rng, k, budget)
     ra, dec = gen_centre(rng, cls)
-    form = 'scalar' if k % 3 else 'vector'
     circles = [(ra, dec, r)]
-    if form == 'vector' and k % 2 == 0:
-        # further circles nearby, same depth (vector input: one query_disc call each)
+    sel = k % 6
+    if sel in (1, 2):
+        form = 'scalar'
+    elif sel == 0:
+        form = VECTOR_FORMS[(k // 6) % len(VECTOR_FORMS)]           # one circle through every list-like form
+        if form == 'sequential':
+            form = 'vector'
+    elif sel in (3, 5):
+        # several circles in one call, distinct centres nearby, same depth (one query_disc call each)
+        form = VECTOR_FORMS[(k // 6) % len(VECTOR_FORMS)]
         for _ in range(rng.choice([1, 2])):
             a2, d2 = offset(ra, dec, r * rng.uniform(0.5, 3) + pix_size(deff), rng.uniform(0, TWO_PI))
             circles.append((a2, d2, r * rng.uniform(0.3, 1.0)))
-    return dict(kind='circle', id=f'c{k}', maxdepth=m, depth=darg, deff=deff, circles=circles, form=form, centre_class=cls)
+    else:
+        # REPEATED centre (bit-identical ra, dec) with different radii, every ordering of small / large, optionally
+        # interleaved with another centre: each listed circle must be covered
+        form = VECTOR_FORMS[(k // 6) % len(VECTOR_FORMS)]
+        small = max(math.radians(0.01), r * rng.uniform(0.2, 0.6))
+        a2, d2 = offset(ra, dec, r * rng.uniform(1.5, 3) + pix_size(deff), rng.uniform(0, TWO_PI))
+        other = (a2, d2, small)
+        layouts = [[(ra, dec, small), (ra, dec, r)],
+                   [(ra, dec, r), (ra, dec, small)],
+                   [(ra, dec, small), other, (ra, dec, r)],
+                   [other, (ra, dec, small), (ra, dec, r), (ra, dec, small)],
+                   [(ra, dec, small), (ra, dec, r), other],
+                   [(ra, dec, r), other, (ra, dec, small)]]
+        circles = layouts[(k // 6) % len(layouts)]
+        cls = cls + '+repeat'
+    case = dict(kind='circle', id=f'c{k}', maxdepth=m, depth=darg, deff=deff, circles=circles, form=form, centre_class=cls)
+    if len(circles) == 1:
+        case['area_order'] = AREA_ORDERS[(k // 2) % len(AREA_ORDERS)]
+    return case
 
 
 def make_poly_case(ctx, k, budget):
@@ -1082,7 +1158,8 @@ def tip_cases(ctx, depths, npix, thorough):
                 for r in sorted(radii):
                     ra, dec = vec2radec(v)
                     case = dict(kind='circle', id=f'tipA-{depth}-{p}-{f}-{r:.3e}', maxdepth=depth, depth=depth, deff=depth,
-                                circles=[(ra, dec, r)], form='scalar', centre_class='pixel-tip')
+                                circles=[(ra, dec, r)], form='scalar', centre_class='pixel-tip',
+                                area_order=AREA_ORDERS[len(out) % len(AREA_ORDERS)])
                     pts = gen_points_circle(rng, ra, dec, r, pix, 3)
                     out.append((case, pts))
             # B: disc edge in the tip
@@ -1121,12 +1198,16 @@ def circle_gen(ctx, k, budget, n_each, spec_only=False):
     case = make_circle_case(ctx, k, budget)
     c0 = case['circles'][0]
     pts = gen_points_circle(ctx.rng, c0[0], c0[1], c0[2], pix_size(case['deff']), n_each)
+    seen = {tuple(c0)}
     for c in case['circles'][1:]:
-        pts += gen_points_circle(ctx.rng, c[0], c[1], c[2], pix_size(case['deff']), 2)
+        if tuple(c) in seen:
+            continue
+        seen.add(tuple(c))
+        pts += gen_points_circle(ctx.rng, c[0], c[1], c[2], pix_size(case['deff']), max(3, n_each // 2))
     ctx.count(f"circle depth {case['deff']}")
     ctx.count('circle radius decade 1e%d deg' % math.floor(math.log10(math.degrees(c0[2]))))
     ctx.count('circle centre ' + case['centre_class'])
-    ctx.count('circle form ' + case['form'] + ('' if len(case['circles']) == 1 else ' (several)'))
+    ctx.count('circle form ' + case['form'] + ('' if len(case['circles']) == 1 else (' (repeated centre)' if 'repeat' in case['centre_class'] else ' (several)')))
     ctx.count('depth argument ' + ('None' if case['depth'] is None else ('> maxdepth' if case['depth'] > case['maxdepth'] else
                                                                          ('< maxdepth' if case['depth'] < case['maxdepth'] else '= maxdepth'))))
     return case, run_circle_case(ctx, case, pts, spec_only)
@@ -1226,7 +1307,7 @@ def replay(ctx, rec):
         pr = (math.radians(p[0]), math.radians(p[1])) if case.get('degin') else (p[0], p[1])
         pts = [(pr[0], pr[1], case.get('tag', 'replay'))]
     base = {k: v for k, v in case.items() if k not in ('point', 'tag', 'degin', 'qform', 'inside', 'dist', 'r', 'pix', 'observe',
-                                                       'interior', 'edge_margin', 'dist_from_circumcentre', 'R')}
+                                                       'interior', 'edge_margin', 'dist_from_circumcentre', 'R', 'unit', 'area')}
     if 'deff' not in base:
         d = base.get('depth')
         base['deff'] = base['maxdepth'] if d is None or d > base['maxdepth'] else d
